@@ -163,6 +163,35 @@ func (s *Session) collect(prop string) *propRun {
 var reUnsafe = regexp.MustCompile(`[^A-Za-z0-9_.\-]+`)
 
 func cmdCheck(prop, tier string, jobs int) int {
+	s, err := loadSession()
+	if err != nil {
+		fmt.Printf("ERROR property=%s cannot load /repo/src with the contracts: %v\n", prop, err)
+		// a tree that does not load cannot be verified; this is an engine-level failure, not a verdict
+		return 2
+	}
+	defer s.solver.Close()
+	return checkOne(s, prop, tier, jobs)
+}
+
+// cmdMulti checks several properties in one session: the program is loaded and every function's VCs are generated once,
+// and an obligation shared by several properties is solved once. Same output and evidence as the single checks.
+func cmdMulti(props []string, tier string, jobs int) int {
+	s, err := loadSession()
+	if err != nil {
+		fmt.Printf("ERROR cannot load /repo/src with the contracts: %v\n", err)
+		return 2
+	}
+	defer s.solver.Close()
+	rc := 0
+	for _, p := range props {
+		if r := checkOne(s, p, tier, jobs); r > rc {
+			rc = r
+		}
+	}
+	return rc
+}
+
+func checkOne(s *Session, prop, tier string, jobs int) int {
 	start := time.Now()
 	currentTier = tier
 	seed, _ := strconv.Atoi(envOr("VERIF_SEED", "0"))
@@ -172,13 +201,6 @@ func cmdCheck(prop, tier string, jobs int) int {
 		evPath = filepath.Join(os.TempDir(), "govc-scratch-evidence-"+prop+".json")
 	}
 	os.Remove(evPath)
-	s, err := loadSession()
-	if err != nil {
-		fmt.Printf("ERROR property=%s cannot load /repo/src with the contracts: %v\n", prop, err)
-		// a tree that does not load cannot be verified; this is an engine-level failure, not a verdict
-		return 2
-	}
-	defer s.solver.Close()
 	known, err := loadKnown()
 	if err != nil {
 		fmt.Println("ERROR known_findings.json:", err)
@@ -276,7 +298,7 @@ func cmdCheck(prop, tier string, jobs int) int {
 	}
 	s.solver.SolveCanaries(pr.canaries, jobs)
 	{
-		schemaObs, unproved := s.schemaObligations(prop)
+		schemaObs, unproved := s.schemaObligations(prop, pr.obs)
 		pr.obs = append(pr.obs, schemaObs...)
 		pr.unprovedSchema = unproved
 	}
